@@ -187,6 +187,13 @@ func ghost_lastEmit(eb *extension.EventBroker[event.SMTPSession, event.SMTPRespo
 
 // NewSession: assumed (its TLS branch asserts the connection type, which only the listener can
 // guarantee; TLS is out of scope).  What the command loop relies on is the initial state.
+// The server runs with exactly the configured limits and policy (only the TLS switch may be turned off).
+//@ func NewServer
+//@   ensures[configuredLimits C06] ret != nil && ret.config.MaxMessageBytes == smtpConfig.MaxMessageBytes && ret.config.MaxRecipients == smtpConfig.MaxRecipients &&
+//@      ret.config.DefaultAccept == smtpConfig.DefaultAccept && ret.config.DefaultStore == smtpConfig.DefaultStore && ret.config.Timeout == smtpConfig.Timeout &&
+//@      ret.config.Domain == smtpConfig.Domain && ret.manager == manager && ret.addrPolicy == apolicy && ret.extHost == extHost
+//@   serves C06 C01 C05
+
 //@ func NewSession
 //@   trusted
 //@   requires server != nil && conn != nil
